@@ -108,6 +108,9 @@ pub enum FOp {
     /// One setter on a live config (the 11 boolean setters).
     ConfigSet { c: u8, bit: u8, on: bool },
     ConfigFree { c: u8 },
+    /// A path setter with a well-formed path that does not exist: must answer false and
+    /// leave the config as it was (and alive).
+    ConfigBadPath { c: u8, layout: bool },
     CtxNew { x: u8, c: u8 },
     CtxFree { x: u8 },
     Key { x: u8, key: u16, m: u8, sel: u8, s: u8 },
@@ -314,6 +317,9 @@ pub fn gen_plan(env: &Env, seed: u64, thorough: bool) -> FPlan {
                     cfg_spec[c] = Some(sp);
                     ops.push(FOp::ConfigSet { c: c as u8, bit, on });
                 }
+            }
+            12 | 13 if !live_cfg.is_empty() && rng.pct(35) => {
+                ops.push(FOp::ConfigBadPath { c: *rng.pick(&live_cfg) as u8, layout: rng.coin() });
             }
             13 if live_cfg.len() > 1 || (live_cfg.len() == 1 && rng.pct(30)) => {
                 // a config may be freed while contexts made from it live on
@@ -527,6 +533,24 @@ pub fn run_lifecycle(env: &Env, plan: &FPlan, st: &mut FStats) -> Result<(), FVi
             FOp::ConfigFree { c } => {
                 if cfgs[*c as usize].take().is_some() {
                     st.calls += 1;
+                }
+            }
+            FOp::ConfigBadPath { c, layout } => {
+                if let Some((h, _)) = cfgs[*c as usize].as_ref() {
+                    st.calls += 1;
+                    let p = CString::new("/riti-sim-virtual/no/such/file.json").unwrap();
+                    let accepted = unsafe {
+                        if *layout {
+                            riti_config_set_layout_file(h.raw(), p.as_ptr())
+                        } else {
+                            riti_config_set_database_dir(h.raw(), p.as_ptr())
+                        }
+                    };
+                    st.evaluations += 1;
+                    st.bump("rejected_path");
+                    if accepted {
+                        bail!("setter-rejects-bad-path", "a path setter accepted a path that does not exist".to_string());
+                    }
                 }
             }
             FOp::CtxNew { x, c } => {
